@@ -304,6 +304,15 @@ def handle (s : S) : List String → S × String
       match agreeEnd s with
       | some d => (s, s!"diff {d}")
       | none => (s, s!"ok listeners={s.ls.length} channels={s.cs.length} shutdown={s.shutRet}")
+  | ["tcp", "skip", _] => (s, "ok skipped")
+  | ["tcp", _early, clients, sync, eof, redial, active, inactive, ctx] =>
+    let f (t pre : String) : String := (t.drop pre.length).toString
+    (s, if f ctx "ctx=" != "1" then "specviol tcp: bootstrap context not cancelled after Shutdown"
+        else if f sync "sync=" != "closed" then s!"specviol tcp: the accept loop ended with '{f sync "sync="}' instead of the server-closed error"
+        else if f redial "redial=" != "refused" then "specviol tcp: a connection is still accepted on the listener's port after Shutdown"
+        else if f eof "eof=" != f clients "clients=" then s!"specviol tcp: {f eof "eof="} of {f clients "clients="} client connections were closed by Shutdown"
+        else if f inactive "inactive=" != f active "active=" then s!"specviol tcp: {f active "active="} channels became active, inactive delivered {f inactive "inactive="} times"
+        else "ok tcp")
   | "crash" :: rest => (s, "diff harness crashed: " ++ " ".intercalate rest)
   | _ => (s, "bad-op")
 
